@@ -5,7 +5,7 @@ CONSTANTS
   SeqMod = 8
   CtrBase = 3
   CtrLimbs = 2
-  Sizes <- Sizes64
+  Sizes <- Sizes300
   StartSeqs <- Seq0
   StartCtrs <- Ctr0Small
   MaxPkts = 1
@@ -13,5 +13,5 @@ CONSTANTS
   AttackOps <- NoOps
   Phased = TRUE
   PadRule = "code"
-INVARIANTS FramingRFC
+INVARIANTS TypeOK FramingRFC ReaderAcceptsRFC RoundTrip DeliveredPrefix SeqCounts SeqAgree
 CHECK_DEADLOCK FALSE
